@@ -33,6 +33,9 @@ func c02(c *Ctx) {
 	// the validator set recorded as LastValidators is the one that signed the block: next-set changes never alias it
 	uniformApplicationRule(c, "R8")
 	c02R9(c)
+	shared(c, "C15", c15R2)
+	shared(c, "C16", func(c *Ctx) { valsetCacheRule(c, "R2") })
+	shared(c, "C06", c06R3)
 }
 
 func c15R6rule(c *Ctx, id string) {
